@@ -28,6 +28,8 @@ type resHandle interface {
 	get(w *ecs.World) (int64, bool)
 	set(w *ecs.World, v int64)
 	rebind(w *ecs.World)
+	curID(w *ecs.World) int // the id the world gives the type now (a fresh lookup)
+	boundID() int           // the id the long-lived handle was bound to when the world was set up
 }
 
 type resImpl[T any] struct {
@@ -47,6 +49,9 @@ func (r *resImpl[T]) rebind(w *ecs.World) {
 	r.h = ecs.NewResource[T](w)
 	r.id = ecs.ResourceID[T](w)
 }
+
+func (r *resImpl[T]) curID(w *ecs.World) int { return int(ecs.ResourceID[T](w).Index()) }
+func (r *resImpl[T]) boundID() int           { return int(r.id.Index()) }
 
 func payload[T any](p *T) *int64 { return (*int64)(unsafe.Pointer(p)) }
 
@@ -139,6 +144,22 @@ func (x *Exec) resState() map[string]int64 {
 		}
 	}
 	return m
+}
+
+// resIDs: the id of every resource type as the world reports it now, and as it was when the world was set up
+// (C18: a resource type always maps to the same id - also across Reset).
+func (x *Exec) resIDs() (cur, bound map[string]int) {
+	cur, bound = map[string]int{}, map[string]int{}
+	// (asked in a rotating order: a registry that forgot its types would hand out ids in the order of asking)
+	x.resRot++
+	for k := range resNames {
+		n := resNames[(k+x.resRot)%len(resNames)]
+		if h, ok := x.res[n]; ok {
+			cur[n] = h.curID(x.w)
+			bound[n] = h.boundID()
+		}
+	}
+	return
 }
 
 func (x *Exec) resOp(op GenOp) {
